@@ -1,4 +1,5 @@
 import Csproto.Proofs.GenDec
+import Csproto.Proofs.Gen
 import Csproto.Proofs.GenRecords
 import Csproto.Proofs.GenRoundtrip
 import Csproto.Proofs.GenNestedRoundtrip
@@ -120,8 +121,8 @@ example : ∀ r ∈ rsEx, r.OK mdEx := by
 
 /-! ### Part 3: message-typed fields — nested, repeated, recursive types, any depth
 
-`NRec` extends `WRec` with one more record form: a message-typed field whose payload is itself a list of
-records of the field's message type.  `decodeMsgN` is the generated code's rule on such a tree (reset,
+`NRec` extends `WRec` with two more record forms: a message-typed field whose payload is itself a list of
+records of the field's message type, and one occurrence of a map field (Part 4).  `decodeMsgN` is the generated code's rule on such a tree (reset,
 fold the records, check required fields at every level).  It agrees with the reference rule except where
 a singular message field occurs more than once in one message (the code replaces, the reference merges:
 finding B9, `last_wins_witness`); a conforming writer's output never does that, which is what
@@ -133,21 +134,22 @@ theorem unmarshal_is_record_tree_decode (S : Schema) (fast : Bool) (md : MD) (rs
   unmarshal_nested S fast md rs hok
 
 /-- **round trip with nested messages**: for message types built from scalar fields and message-typed
-    fields (singular, repeated, recursive; no maps, no real oneofs), `Unmarshal(Marshal(m) ++ unknown)` is
+    fields (singular, repeated, recursive, members of real oneofs with at most one member set; no maps), `Unmarshal(Marshal(m) ++ unknown)` is
     `m` with identical presence at every level, and the unknown fields byte for byte -/
 theorem roundtrip_nested (S : Schema) (hS : SchemaOK S) (fast : Bool) (i : Nat) (fs : List F) (urs : List Rec)
-    (ops : List EncOp) (hwf : WFs S (S.md i) fs) (hok : OKFields S (S.md i) fs)
+    (ops : List EncOp) (hwf : WFs S (S.md i) fs) (hex : Excl (S.md i) fs) (hok : OKFields S (S.md i) fs)
     (hu : ∀ r ∈ urs, r.OK ∧ findField (S.md i) r.tag 0 = none)
     (ho : opsFields S (S.md i) fs = .ok ops) :
     unmarshal S fast (S.md i) (Gen.wiresOf ops ++ Csproto.wiresOf urs)
       = .ok (canonFs S (S.md i) fs, Csproto.wiresOf urs) :=
-  Gen.roundtrip_nested S hS fast i fs urs ops hwf hok hu ho
+  Gen.roundtrip_nested S hS fast i fs urs ops hwf hex hok hu ho
 
 /-! non-vacuity of Part 3 -/
-def sN : Schema := [[⟨1, .sc .int32, .implicit⟩, ⟨2, .msg 0, .explicit⟩, ⟨3, .msg 1, .list⟩], [⟨1, .sc .string, .explicit⟩]]
-def innerN : List F := [.one (.num 0), .unset, .many []]
+def sN : Schema := [[⟨1, .sc .int32, .implicit⟩, ⟨2, .msg 0, .explicit⟩, ⟨3, .msg 1, .list⟩, ⟨4, .sc .int32, .oneof 0⟩, ⟨5, .msg 1, .oneof 0⟩],
+  [⟨1, .sc .string, .explicit⟩]]
+def innerN : List F := [.one (.num 0), .unset, .many [], .one (.num 3), .unset]
 def elemsN : List V := [.msg [.one (.bs [0x68])] [], .msg [.unset] []]
-def fsN : List F := [.one (.num 7), .one (.msg innerN []), .many elemsN]
+def fsN : List F := [.one (.num 7), .one (.msg innerN []), .many elemsN, .unset, .one (.msg [.one (.bs [0x69])] [])]
 
 theorem schemaN_ok : SchemaOK sN := by
   intro i
@@ -177,29 +179,112 @@ theorem len_ok (i : Nat) (fs : List F) (hwf : WFs sN (sN.md i) fs) (hok : OKFiel
   obtain ⟨ops, ho⟩ := ho
   rw [recs_len_eq_size sN _ fs ops hok (wfs_clean sN _ fs hwf) ho]; exact hs
 
+/-- only fields 4 and 5 of message 0 are members of a oneof; message 1 has none -/
+theorem excl0 (fs : List F) (h : fs[3]? = some F.unset ∨ fs[4]? = some F.unset) : Excl (sN.md 0) fs := by
+  intro i j fdi fdj g hi hj hgi hgj hne
+  have e0 : sN.md 0 = [⟨1, .sc .int32, .implicit⟩, ⟨2, .msg 0, .explicit⟩, ⟨3, .msg 1, .list⟩, ⟨4, .sc .int32, .oneof 0⟩, ⟨5, .msg 1, .oneof 0⟩] := rfl
+  rw [e0] at hi hj
+  have hi' : i = 3 ∨ i = 4 := by
+    rcases i with _|_|_|_|_|i <;> simp at hi <;> (try subst hi) <;> simp at hgi ⊢
+  have hj' : j = 3 ∨ j = 4 := by
+    rcases j with _|_|_|_|_|j <;> simp at hj <;> (try subst hj) <;> simp at hgj ⊢
+  rcases hi' with rfl | rfl <;> rcases hj' with rfl | rfl
+  · exact absurd rfl hne
+  · exact h
+  · exact h.symm
+  · exact absurd rfl hne
+
+theorem excl1 (fs : List F) : Excl (sN.md 1) fs := by
+  intro i j fdi fdj g hi hj hgi hgj hne
+  have e1 : sN.md 1 = [⟨1, .sc .string, .explicit⟩] := rfl
+  rw [e1] at hi
+  rcases i with _|i <;> simp at hi
+  subst hi; simp at hgi
+
 theorem wf_top : WFs sN (sN.md 0) fsN := by
   have h0 := len_ok 0 innerN wf_inner (by simp [OKFields, OKField, OKMsgList, sN, Schema.md, innerN, ValidScalar, C01.ValidTag, maxTagValue]) ⟨_, rfl⟩ (by decide)
   have h1 := len_ok 1 [.one (.bs [0x68])] wf_elem0 (by simp [OKFields, OKField, sN, Schema.md, ValidScalar, C01.ValidTag, maxTagValue, V.b, maxFieldLen]) ⟨_, rfl⟩ (by decide)
   have h2 := len_ok 1 [.unset] wf_elem1 (by simp [sN, Schema.md, OKFields, OKField]) ⟨_, rfl⟩ (by decide)
-  have e0 : sN.md 0 = [⟨1, .sc .int32, .implicit⟩, ⟨2, .msg 0, .explicit⟩, ⟨3, .msg 1, .list⟩] := rfl
+  have h3 := len_ok 1 [.one (.bs [0x69])] (by simp [WFs, WFf, sN, Schema.md, ShapeOK, ValOK, isRep, C01.ValidTag, maxTagValue, DecValid, CleanV, kindOf, V.b, maxFieldLen])
+    (by simp [OKFields, OKField, sN, Schema.md, ValidScalar, C01.ValidTag, maxTagValue, V.b, maxFieldLen]) ⟨_, rfl⟩ (by decide)
+  have w3 : WFs sN (sN.md 1) [.one (.bs [0x69])] := by
+    simp [WFs, WFf, sN, Schema.md, ShapeOK, ValOK, isRep, C01.ValidTag, maxTagValue, DecValid, CleanV, kindOf, V.b, maxFieldLen]
+  have e0 : sN.md 0 = [⟨1, .sc .int32, .implicit⟩, ⟨2, .msg 0, .explicit⟩, ⟨3, .msg 1, .list⟩, ⟨4, .sc .int32, .oneof 0⟩, ⟨5, .msg 1, .oneof 0⟩] := rfl
   have e1 : sN.md 1 = [⟨1, .sc .string, .explicit⟩] := rfl
   unfold fsN elemsN
   rw [e0]
   simp only [WFs, WFf, WFvs, WFv, and_true, true_and]
-  refine ⟨?_, ⟨rfl, ?_, wf_inner, h0⟩, ?_, ⟨wf_elem0, h1⟩, wf_elem1, h2⟩
+  refine ⟨?_, ⟨rfl, ?_, wf_inner, h0, excl0 _ (Or.inr rfl)⟩, ⟨?_, ⟨wf_elem0, h1, excl1 _⟩, wf_elem1, h2, excl1 _⟩, rfl, ?_, w3, h3, excl1 _⟩
   · simp [ShapeOK, ValOK, isRep, C01.ValidTag, maxTagValue, DecValid, CleanV, kindOf, V.n, two64]
+  · simp [C01.ValidTag, maxTagValue]
   · simp [C01.ValidTag, maxTagValue]
   · simp [C01.ValidTag, maxTagValue]
 
 /-- non-vacuity of `roundtrip_nested`: a recursive type (field 2 of message 0 is message 0), a repeated
-    message field with one empty element, and one unknown field after the body -/
+    message field with one empty element, a real oneof whose message-typed member is set at the top level
+    and whose scalar member is set one level down, and one unknown field after the body -/
 theorem roundtrip_nested_example : ∃ ops, unmarshal sN true (sN.md 0) (Gen.wiresOf ops ++ Csproto.wiresOf [.varint 9 300])
     = .ok (canonFs sN (sN.md 0) fsN, Csproto.wiresOf [.varint 9 300]) := by
   obtain ⟨ops, ho⟩ := opsN
-  refine ⟨ops, roundtrip_nested sN schemaN_ok true 0 fsN [.varint 9 300] ops wf_top okN ?_ ho⟩
+  refine ⟨ops, roundtrip_nested sN schemaN_ok true 0 fsN [.varint 9 300] ops wf_top (excl0 _ (Or.inl rfl)) okN ?_ ho⟩
   intro r hr
   simp only [List.mem_cons, List.mem_nil_iff, or_false] at hr
   subst hr
   simp [Rec.OK, Rec.tag, findField, sN, Schema.md, C01.ValidTag, maxTagValue, two64]
+
+
+/-! ### Part 4: map entries — key and value in either order, omitted, repeated; foreign fields skipped
+
+`NRec.map` is one occurrence of a map field: its payload is any sequence of well-formed records of the
+entry type (the key, the value — scalar or message —, fields the entry type does not define), in any
+order and any number of times.  `unmarshal_is_record_tree_decode` covers such records: the generated
+sub-decoder computes `foldE` (last key / last value win, anything else is skipped), fills in a missing
+message value with an empty message, and inserts the entry into the map, replacing an entry with the
+same key (`NRec.applyN`).  The lemmas below spell out the consequences the property lists. -/
+
+/-- key and value of a map entry may come in either order -/
+theorem map_entry_order_irrelevant (S : Schema) (emd : MD) (ik iv : Nat) (fdk fdv : FD) (kk kv : SK) (vk vv : V)
+    (efs : List F) (h : ik ≠ iv) :
+    foldE S emd [.flat (.scalar ik fdk kk vk), .flat (.scalar iv fdv kv vv)] efs
+      = foldE S emd [.flat (.scalar iv fdv kv vv), .flat (.scalar ik fdk kk vk)] efs := by
+  simp only [foldE, NRec.applyE, flatE]
+  rw [List.set_comm _ _ h]
+
+/-- a key or value that occurs twice in one entry: the last occurrence wins -/
+theorem map_entry_last_wins (S : Schema) (emd : MD) (i : Nat) (fd : FD) (k : SK) (v1 v2 : V) (efs : List F) :
+    foldE S emd [.flat (.scalar i fd k v1), .flat (.scalar i fd k v2)] efs
+      = foldE S emd [.flat (.scalar i fd k v2)] efs := by
+  simp only [foldE, NRec.applyE, flatE, List.set_set]
+
+/-- an entry that omits the key (or the value) keeps the reset value of that field -/
+theorem map_entry_omitted_is_default (S : Schema) (emd : MD) (iv : Nat) (fdv : FD) (kv : SK) (vv : V) :
+    foldE S emd [.flat (.scalar iv fdv kv vv)] (initFields emd) = .ok ((initFields emd).set iv (.one (decodedV kv vv))) := by
+  simp only [foldE, NRec.applyE, flatE]
+
+/-- fields the entry type does not define are skipped -/
+theorem map_entry_unknown_skipped (S : Schema) (emd : MD) (r : Rec) (rest : List NRec) (efs : List F) :
+    foldE S emd (.flat (.unknown r) :: rest) efs = foldE S emd rest efs := by
+  simp only [foldE, NRec.applyE, flatE]
+
+def sM : Schema := [[⟨1, .msg 1, .map⟩], [⟨1, .sc .int32, .always⟩, ⟨2, .sc .string, .always⟩]]
+def fdM : FD := ⟨1, .msg 1, .map⟩
+def fkM : FD := ⟨1, .sc .int32, .always⟩
+def fvM : FD := ⟨2, .sc .string, .always⟩
+/-- entry 1: value "a" BEFORE key 5; entry 2: key 5 again, value omitted -/
+def rsM : List NRec :=
+  [.map 0 fdM 1 [.flat (.scalar 1 fvM .string (.bs [0x61])), .flat (.scalar 0 fkM .int32 (.num 5))],
+   .map 0 fdM 1 [.flat (.scalar 0 fkM .int32 (.num 5))]]
+
+theorem rsM_ok : OKs sM (sM.md 0) rsM := by
+  have hs : (scalarOp .string 2 (.bs [0x61])).wire.length = 3 := by
+    rw [← scalar_exact .string 2 (.bs [0x61]) (by simp [C01.ValidTag, maxTagValue]) (by simp [ValidScalar, V.b, maxFieldLen])]; decide
+  have hk : (scalarOp .int32 1 (.num 5)).wire.length = 2 := by
+    rw [← scalar_exact .int32 1 (.num 5) (by simp [C01.ValidTag, maxTagValue]) (by simp [ValidScalar])]; decide
+  simp [OKs, NRec.OK, OKsE, NRec.OKE, flatOKE, rsM, sM, Schema.md, fdM, fkM, fvM, findField, C01.ValidTag, maxTagValue,
+    DecValid, isRep, wiresN, NRec.wire, WRec.wire, maxFieldLen, V.n, V.b, two64, hs, hk]
+
+theorem map_entries_example : unmarshal sM false (sM.md 0) (wiresN rsM) = .ok ([.many [.msg [.one (.num 5), .one (.bs [])] []]], []) := by
+  rw [unmarshal_nested sM false (sM.md 0) rsM rsM_ok]
+  rfl
 
 end Csproto.C06
